@@ -165,6 +165,13 @@ sig_filter_stop_sink(const struct video_filter_s* filter)
     self->sink.is_stopping = 1;
 }
 
+static void
+sig_filter_stop_source(const struct video_filter_s* filter)
+{
+    struct video_s* self = containerof(filter, struct video_s, filter);
+    self->source.is_stopping = 1;
+}
+
 static int
 reserve_image_shape(struct video_s* video)
 {
@@ -214,6 +221,7 @@ acquire_init(void (*reporter)(int is_error,
         // source --stop--> filter --stop--> sink: each stage stops the next
         // one only after it has passed on everything it received.
         video->filter.sig_stop_sink = sig_filter_stop_sink;
+        video->filter.sig_stop_source = sig_filter_stop_source;
         EXPECT(video_source_init(&video->source,
                                  i,
                                  -1,
